@@ -1,4 +1,5 @@
 import FrappyDrive.Util
+import FrappyDrive.DTypes
 import FrappyModel.Spec.C04
 import FrappyModel.Generated.C04
 /- line-protocol glue for C04 (and the node parser shared with C06).
@@ -56,26 +57,26 @@ abbrev Table (α : Type) := List (String × α)
 def Table.get {α : Type} (t : Table α) (k : String) : Option α := (t.find? (fun e => e.1 == k)).map (·.2)
 
 structure Tables where
-  accept : Table (Except Err VV) := []      -- mod, attr, j, prev
-  reval : Table (Except Err VV) := []       -- mod, attr, v
-  convert : Table (Except Err VV) := []     -- mod, attr, raw
+  accept : Table (Except Node.Err VV) := []      -- mod, attr, j, prev
+  reval : Table (Except Node.Err VV) := []       -- mod, attr, v
+  convert : Table (Except Node.Err VV) := []     -- mod, attr, raw
   exportT : Table JJ := []                   -- mod, attr, v
-  cmdaccept : Table (Except Err VV) := []   -- mod, attr, j
-  cmdconvert : Table (Except Err VV) := []  -- mod, attr, raw
+  cmdaccept : Table (Except Node.Err VV) := []   -- mod, attr, j
+  cmdconvert : Table (Except Node.Err VV) := []  -- mod, attr, raw
   cmdexport : Table JJ := []                -- mod, attr, v
   le : Table Bool := []
   lt : Table Bool := []
   split : Table (VV × VV) := []
   chk : Table CheckRes := []                -- mod, attr, id, v
 
-def miss (what key : String) : Err := ⟨.internal, s!"ORACLE-MISS {what} {key.replace sep "|"}"⟩
+def miss (what key : String) : Node.Err := ⟨.internal, s!"ORACLE-MISS {what} {key.replace sep "|"}"⟩
 
-def parseErr (a : List Json) : R Err :=
+def parseErr (a : List Json) : R Node.Err :=
   match a with
   | [_, .str cls, .str ident] => pure ⟨clsOfName cls, ident⟩
   | _ => throw "bad error"
 
-def parseRes (j : Json) : R (Except Err VV) := do
+def parseRes (j : Json) : R (Except Node.Err VV) := do
   let a ← arr j
   match a with
   | [.str "ok", .str v] => return .ok v
@@ -125,7 +126,7 @@ def parseTables (j : Json) : R Tables := do
       | _ => throw "bad chk"))
   return { accept, reval, convert, exportT, cmdaccept, cmdconvert, cmdexport, le, lt, split, chk }
 
-def lookR (t : Table (Except Err VV)) (what key : String) : Except Err VV := (t.get key).getD (.error (miss what key))
+def lookR (t : Table (Except Node.Err VV)) (what key : String) : Except Node.Err VV := (t.get key).getD (.error (miss what key))
 
 def mkDt (t : Tables) (mod attr : String) (datainfo : JJ) : DtOps JJ VV where
   accept := fun j prev => lookR t.accept "accept" (mkKey [mod, attr, j, optKey prev])
@@ -166,7 +167,7 @@ def parseAcc (t : Tables) (mod : String) (j : Json) : R (Acc JJ VV) := do
     let re ← fld j "readerror"
     let readerror ← if re.isNull then pure none else do
       match ← arr re with
-      | [.str cls, .str ident] => pure (some (Err.mk (clsOfName cls) ident))
+      | [.str cls, .str ident] => pure (some (Node.Err.mk (clsOfName cls) ident))
       | _ => throw "bad readerror"
     return .param {
       attr, exp, limitHead := ← optS (← fld j "limitHead"),
@@ -187,8 +188,14 @@ def parseAcc (t : Tables) (mod : String) (j : Json) : R (Acc JJ VV) := do
 
 def parseModule (t : Tables) (j : Json) : R (Module JJ VV) := do
   let name ← fldStr j "name"
+  let mro ← match j.getObjVal? "mro" with
+    | .error _ => pure []
+    | .ok a => (← arr a).mapM (fun row => do
+        match ← arr row with
+        | [.str c, .bool f] => return (ClassInfo.mk c f)
+        | _ => throw "bad mro entry")
   return { name, exported := ← fldBool j "exported", accs := ← (← fldArr j "accs").mapM (parseAcc t name),
-           props := ← parseProps j }
+           props := ← parseProps j, mro }
 
 def parseNode (t : Tables) (j : Json) : R (Node JJ VV) := do (← fldArr j "modules").mapM (parseModule t)
 
@@ -211,11 +218,12 @@ def mkEnv (t : Tables) (drv : DriverResult VV) : Env VV where
   lt := fun a b => (t.lt.get (mkKey [a, b])).getD false
   split := fun v => (t.split.get v).getD ("ORACLE-MISS split", "ORACLE-MISS split")
 
-def parseReq (j : Json) : R (Request JJ) := do
+def parseReq (j : Json) : R (Request JJ VV) := do
   match ← arr j with
   | [.str "change", spec, .str p] => return .change (parseSpec (← optS spec)) p
   | [.str "do", spec, data] => return .do_ (parseSpec (← optS spec)) (← optS data)
   | [.str "read", spec, .bool b] => return .read (parseSpec (← optS spec)) b
+  | [.str "assign", .str m, .str a, raw] => return .assign m a (← optS raw)
   | _ => throw s!"bad request {j.compress}"
 
 def replyJson : Reply JJ → Json
@@ -235,7 +243,7 @@ def msgJson : Msg JJ → Json
 
 def cacheJson (c : Cache VV) : Json :=
   jarr (c.flatMap (fun me => me.2.map (fun ae =>
-    jarr [Json.str me.1, Json.str ae.1, Json.str ae.2.value, jopt (fun e : Err => Json.str (nameOfCls e.cls)) ae.2.readerror])))
+    jarr [Json.str me.1, Json.str ae.1, Json.str ae.2.value, jopt (fun e : Node.Err => Json.str (nameOfCls e.cls)) ae.2.readerror])))
 
 def outJson (o : Outcome JJ VV) : Json :=
   Json.mkObj [("reply", replyJson o.reply), ("calls", jarr (o.calls.map callJson)),
@@ -276,7 +284,43 @@ def withCache (n : Node JJ VV) (rows : List (String × String × VV × Option St
 def stripIdent (c : Cache VV) : Cache VV :=
   c.map (fun me => (me.1, me.2.map (fun ae => (ae.1, { ae.2 with readerror := ae.2.readerror.map (fun e => ⟨e.cls, ""⟩) }))))
 
-def runSteps (n : Node JJ VV) : List (Env VV × Request JJ) → List (Outcome JJ VV) := run predef n
+def runSteps (n : Node JJ VV) : List (Env VV × Request JJ VV) → List (Outcome JJ VV) := run predef n
+
+/-- rows `[step, mod, attr, payload, previous, {"ok": value} | {"err": class}]` of the accept oracle, for parameters
+whose datatype tree is given in `dtrees` (`[mod, attr, tree]`): first row the datatype model (C01) disagrees with -/
+def checkAcceptRows (j : Json) : R (Option (Nat × String)) := do
+  let trees ← match j.getObjVal? "dtrees" with
+    | .error _ => pure []
+    | .ok t => (← arr t).mapM (fun row => do
+        match ← arr row with
+        | [.str m, .str a, tree] => return (mkKey [m, a], ← dtypeOfJson tree)
+        | _ => throw "bad dtree row")
+  let rows ← match j.getObjVal? "acceptck" with
+    | .error _ => pure []
+    | .ok t => arr t
+  for row in rows do
+    match ← arr row with
+    | [step, .str m, .str a, payload, prev, res] =>
+      match (trees.find? (fun e => e.1 == mkKey [m, a])).map (·.2) with
+      | none => pure ()
+      | some dt =>
+        let jv ← jvalOfJson payload
+        let pv ← optPVal prev
+        let impl : Except Frappy.Err (PVal Float) ← match res.getObjVal? "ok", res.getObjVal? "err" with
+          | .ok v, _ => do pure (.ok (← pvalOfJson v))
+          | _, .ok (.str "RangeError") => pure (.error .range)
+          | _, .ok (.str "WrongType") => pure (.error .wrongType)
+          | _, .ok (.str c) => pure (.error (.other c))
+          | _, _ => throw "bad accept result"
+        if !(acceptFaithfulB dt jv pv impl) then
+          let model := match Frappy.Datatypes.acceptWire dt jv pv with
+            | .ok v => (pvalToJson v).compress
+            | .error .range => "RangeError"
+            | .error .wrongType => "WrongType"
+            | .error (.other c) => c
+          return some (← step.getNat?, s!"accept-oracle {m}.{a}: the datatype model says {model}, the implementation {res.compress}")
+    | _ => throw "bad acceptck row"
+  return none
 
 def handle (j : Json) : R Json := do
   let k ← fldStr j "k"
@@ -315,9 +359,35 @@ def handle (j : Json) : R Json := do
             | .allowDo m a arg => s!"allow {m}.{a} arg={arg}"
             | .allow .. => "?"
           | .read .. => "read-only"
+          | .assign .. => "assignment: no driver call"
         bad := some (i, why)
       i := i + 1
+    if bad.isNone then
+      bad ← checkAcceptRows j
     return Json.mkObj [("bad", jopt (fun b : Nat × String => jarr [jnat b.1, Json.str b.2]) bad)]
+  | "lockrun" =>
+    -- the events of the real wrappers (acquire / check / call / move / release per thread) replayed on the lock-discipline system
+    let acts ← (← fldArr j "acts").mapM (fun a => do
+      match ← arr a with
+      | [.str "acquire", t] => return AccessLock.Act.acquire (← t.getNat?)
+      | [.str "release", t] => return AccessLock.Act.release (← t.getNat?)
+      | [.str "check", t, v] => return AccessLock.Act.check (← t.getNat?) (← v.getInt?)
+      | [.str "call", t, v] => return AccessLock.Act.call (← t.getNat?) (← v.getInt?)
+      | [.str "move", t, v] => return AccessLock.Act.move (← t.getNat?) (← v.getInt?)
+      | _ => throw s!"bad act {a.compress}")
+    match AccessLock.run (AccessLock.init (← fldInt j "max")) acts with
+    | none => return Json.mkObj [("ok", Json.bool false), ("calls", Json.null)]
+    | some s => return Json.mkObj [("ok", Json.bool true),
+        ("calls", jarr (s.calls.map (fun c => jarr [jint c.1, jint c.2]))),
+        ("within", Json.bool (decide (∀ c ∈ s.calls, c.1 ≤ c.2)))]
+  | "judge_call" =>
+    -- one driver call of the real code against the limits in force at that moment (the node as it was then)
+    let t ← parseTables (← fld j "oracle")
+    let n ← parseNode t (← fld j "node")
+    let m ← fldStr j "m"
+    match findModule n m with
+    | none => throw "judge_call: no such module"
+    | some mod => return Json.mkObj [("ok", Json.bool (callWithinLimitsB (mkEnv t .none) mod (← fldStr j "attr") (← fldStr j "v")))]
   | _ => throw s!"C04: unknown verb {k}"
 
 end Frappy.Drive.C04
